@@ -40,6 +40,7 @@ F_ACTION = 'bobocep/cep/event/action.py'
 F_HISTORY = 'bobocep/cep/event/history.py'
 F_FACTORY = 'bobocep/cep/event/factory.py'
 F_TCP = 'bobocep/dist/tcp.py'
+F_DEVICE = 'bobocep/dist/device.py'
 
 JSONABLE = {'BoboHistory', 'BoboRunSerial', 'BoboEvent', 'BoboEventSimple', 'BoboEventComplex', 'BoboEventAction'}
 CLS_LEAN = {'BoboEventSimple': '.simple', 'BoboEventComplex': '.complex', 'BoboEventAction': '.action'}
@@ -440,10 +441,30 @@ def wire_schema(repo, hashes):
     hashes[f'{F_TCP}::BoboDistributedTCP._split_plaintext'] = sha(ast.get_source_segment(src, sp))
     if unparse_body(sp.body) != SPLIT:
         raise TieBroken("_split_plaintext: shape changed")
+    # BoboDevice.__init__ rejects a urn / id_key containing a space (hypothesis of header_roundtrip)
+    dsrc = (repo / F_DEVICE).read_text()
+    dinit = find_func(find_class(ast.parse(dsrc), 'BoboDevice'), '__init__')
+    hashes[f'{F_DEVICE}::BoboDevice.__init__'] = sha(ast.get_source_segment(dsrc, dinit))
+    dbody = strip_doc(dinit.body)
+    nospace = {}
+    for param in ('urn', 'id_key'):
+        gi = [i for i, st in enumerate(dbody)
+              if isinstance(st, ast.If) and not st.orelse and len(st.body) == 1 and isinstance(st.body[0], ast.Raise)
+              and ast.unparse(st.test) == f"' ' in {param}"]
+        # the guard counts only if the parameter is not rebound after it
+        rebound = [i for i, st in enumerate(dbody) if isinstance(st, (ast.Assign, ast.AnnAssign, ast.AugAssign))
+                   and any(isinstance(t, ast.Name) and t.id == param
+                           for t in (st.targets if isinstance(st, ast.Assign) else [st.target]))]
+        nospace[param] = 'true' if gi and all(r < gi[0] for r in rebound) else 'false'
+        assigned = [st for st in dbody if isinstance(st, (ast.Assign, ast.AnnAssign))
+                    and ast.unparse(st.value) == param]
+        if len(assigned) != 1:
+            raise TieBroken(f"BoboDevice.__init__: {param} is not stored exactly once, unchanged")
     return ('{ keys := ' + llist([lstr(k) for k in keys]) + ',\n    elemWrap := ' + wraps.pop()
             + ',\n    elemDecoder := ' + lstr(decs.pop()) + ',\n    encDefault := ' + lstr(enc_default)
             + ',\n    hookOnAllDicts := ' + all_dicts + ',\n    headerFormat := ' + lstr(hfmt)
-            + ',\n    headerArgs := ' + llist([lstr(a) for a in hargs]) + ' }')
+            + ',\n    headerArgs := ' + llist([lstr(a) for a in hargs])
+            + ',\n    urnNoSpace := ' + nospace['urn'] + ',\n    keyNoSpace := ' + nospace['id_key'] + ' }')
 
 
 def translate(repo):
